@@ -93,7 +93,12 @@ def sum_over(dim, body):
     if not body.has(dim.k):
         return dim.n * body
     dummy = sp.Dummy(f"j_{dim.name}", integer=True, nonnegative=True)
-    return sp.Sum(body.subs(dim.k, dummy), (dummy, 0, dim.n - 1))
+    s = sp.Sum(fast_subs(body, dim.k, dummy), (dummy, 0, dim.n - 1))
+    # canonical from the start (S1-S3): index-free coefficients out of the sum, one sum per monomial,
+    # coefficients reduced modulo the state's polynomial relations
+    from . import sigma
+    from .symnp import reduce_mod_ideal
+    return reduce_mod_ideal(sigma.canon_one(s))
 
 
 def _obj(x):
@@ -155,8 +160,18 @@ def _map(f, arr):
     return out
 
 
+def fast_subs(e, old, new):
+    """substitution of an index symbol: xreplace (no traversal of assumptions), then re-evaluation of Mod nodes"""
+    if not e.has(old):
+        return e
+    e = e.xreplace({old: new})
+    if e.has(sp.Mod):
+        e = e.replace(lambda x: isinstance(x, sp.Mod), lambda x: sp.Mod(*x.args))
+    return e
+
+
 def subs_arr(arr, old, new):
-    return _map(lambda v: _wrap_elem(_sx(v).subs(old, new)) if isinstance(v, (Sym, SymBool)) else v, arr)
+    return _map(lambda v: _wrap_elem(fast_subs(_sx(v), old, new)) if isinstance(v, (Sym, SymBool)) else v, arr)
 
 
 class SymArr:
@@ -638,7 +653,9 @@ class SymArr:
 
     def mean(self, axis=None, **_k):
         if axis is None:
-            raise paths.OutOfReach("mean over all axes")
+            if self.ndim != 1:
+                raise paths.OutOfReach("mean over all axes of a multi-dimensional symbolic array")
+            axis = 0
         axis_n = self._norm_axis(axis)
         a = self.axes[axis_n]
         s = self.sum(axis=axis_n)
@@ -806,7 +823,7 @@ def gather(base, idx):
     for i in (np.ndindex(idx.inner.shape) if idx.inner.ndim else [()]):
         ie = _sx(idx.inner[i])
         for j in (np.ndindex(base.inner.shape) if base.inner.ndim else [()]):
-            out[i + j] = wrap(_sx(base.inner[j]).subs(d.k, ie))
+            out[i + j] = wrap(fast_subs(_sx(base.inner[j]), d.k, ie))
     return SymArr(idx.axes + rest_axes, out, idx.guard)
 
 
